@@ -442,10 +442,13 @@ func discharge(ob *Obligation, dir string, timeout int, agree bool) {
 	if ob.Solver == "static" {
 		return // decided without a solver (frame, cost, missing anchors)
 	}
-	file := filepath.Join(dir, sanitize(ob.Name)+".smt2")
-	if len(file) > 200 {
-		file = filepath.Join(dir, fmt.Sprintf("ob_%x.smt2", hashStr(ob.Name)))
+	// the file name must be unique per obligation (two names may sanitize to the same text: "%s:{%s TO %s}" and
+	// "%s:[%s TO %s]"; obligations are discharged concurrently and the files of proved ones are deleted)
+	base := sanitize(ob.Name)
+	if len(base) > 120 {
+		base = base[:120]
 	}
+	file := filepath.Join(dir, fmt.Sprintf("%s_%08x.smt2", base, hashStr(ob.Func+"|"+ob.Name)))
 	os.WriteFile(file, []byte(ob.Query), 0o644)
 	res, dt := runSolver(solvers[0], file, timeout)
 	ob.Time += dt
